@@ -174,7 +174,20 @@ func (l AbstractListSchema[ItemType]) ValidateCompatibility(typeOrData any) erro
 				itemsValueField.Interface()),
 		}
 	}
-	// Note: Not currently bothering with validating min and max fields
+	// Must have size overlap.
+	var minValue, maxValue *int64
+	if minField := listSchemaField.FieldByName("MinValue"); minField.IsValid() {
+		minValue, _ = minField.Interface().(*int64)
+	}
+	if maxField := listSchemaField.FieldByName("MaxValue"); maxField.IsValid() {
+		maxValue, _ = maxField.Interface().(*int64)
+	}
+	if (l.MaxValue != nil && minValue != nil && (*minValue) > (*l.MaxValue)) ||
+		(l.MinValue != nil && maxValue != nil && (*maxValue) < (*l.MinValue)) {
+		return &ConstraintError{
+			Message: "mutually exclusive lengths between list schemas",
+		}
+	}
 	// Validate the list sub-type
 	return l.ItemsValue.ValidateCompatibility(itemType)
 }
